@@ -152,7 +152,7 @@ def install_as_completed_probes(courier_worker, courier_utils, orchestrate, pool
   widx = {id(w): i for i, w in enumerate(workers)}
   WP, CC, Task = courier_worker.WorkerPool, courier_utils.CourierClient, courier_utils.Task
   saved = dict(workers=WP.__dict__['workers'], acquired=WP.__dict__['acquired_workers'], next_idle=WP.next_idle_worker,
-               release_all=WP.release_all, is_alive=Task.__dict__['is_alive'], submit=CC.submit)
+               release_all=WP.release_all, is_alive=Task.__dict__['is_alive'], submit=CC.submit, done=Task.done)
   cur_pool = {}
 
   def probe(entry):
@@ -209,6 +209,15 @@ def install_as_completed_probes(courier_worker, courier_utils, orchestrate, pool
       probe(dict(op='submit', p=cur_pool.get(t.tid if t else -1, 0), w=widx[id(self)], task=kinds.get(id(lazy), 'ok')))
     return saved['submit'](self, task)
 
+  def m_done(self):
+    # round 11: `task.done()` polled by the body of as_completed reads a future shared with the transport: a yield point of its
+    # own ('tdone'; the read is the effect of the step), so that the Lean program of as_completed reads the same value
+    s = _CUR.get('sched')
+    if s is not None and s.current() is not None and _sys._getframe(1).f_code is code:  # pylint: disable=protected-access
+      return s.op('tdone', lambda: True, lambda alt: saved['done'](self))
+    return saved['done'](self)
+
+  Task.done = m_done
   WP.workers = property(g_workers)
   WP.acquired_workers = property(g_acquired)
   WP.next_idle_worker = m_next_idle
@@ -220,6 +229,7 @@ def install_as_completed_probes(courier_worker, courier_utils, orchestrate, pool
     WP.workers, WP.acquired_workers = saved['workers'], saved['acquired']
     WP.next_idle_worker, WP.release_all = saved['next_idle'], saved['release_all']
     Task.is_alive, CC.submit = saved['is_alive'], saved['submit']
+    Task.done = saved['done']
   return undo
 
 
@@ -235,6 +245,20 @@ def canon_outcome(res):
   if r.startswith('err:RuntimeError:Failed to connect'):
     return 'disconnected'
   return 'raised'
+
+
+def canon_ac_outcome(res):
+  """Result string of a consumed as_completed -> the model's outcome name."""
+  r = str(res)
+  if r in ('ok', 'closed', 'never-started'):
+    return r
+  if r.startswith('err:TimeoutError') or r.startswith('err:Timeout'):
+    return 'noWorker'
+  if r.startswith('err:RuntimeError') or r.startswith('err:Runtime'):
+    return 'disconnected'
+  return 'raised'
+
+
 ENV_OPS = ('die', 'revive', 'send', 'deliver', 'tick', 'shutdown')
 
 
@@ -506,16 +530,32 @@ def run_real(case, max_steps=4000):
 
 # ------------------------------------------------------------------ model side
 
+import os as _os
+# the model is the model of the REPAIRED as_completed (release_all(unused) only for a non-empty set); development aid:
+# VERIF_C20_AC_FIXED=0 replays the unrepaired control flow (F-C20-release-empty-set)
+AC_FIXED = _os.environ.get('VERIF_C20_AC_FIXED', '1') != '0'
+
+
 def model_threads(case, alog=None):
-  """The threads as the model sees them; an `as_completed` operation is replaced by the script of primitive operations
-  its body was observed to perform in the real run (`alog`)."""
+  """The threads as the model sees them.  Round 11: an `as_completed` operation is the PROGRAM `asCompleted` of the product LTS
+  (tasks, ignore_failures, what the consumer does); the pool-level calls its body was observed to make (`alog`) are passed as
+  the prophecy script — it carries the environment's choices (set iteration orders, shuffle, sample); the controller of the
+  model decides which call comes next and accepts the observed one only if the Python semantics allows it.  The `submit`
+  entries of the log are not part of the script (the pieces of `worker.submit` are discovered by the driver); they are
+  compared with the submissions the model made."""
   out = []
   for t, th in enumerate(case['threads']):
     ops = []
     for o in th['ops']:
       if o['op'] == 'as_completed':
-        # (a generator closed before its first next() runs no line of as_completed: an operation that does nothing)
-        ops += [model_op(x) for x in (alog or {}).get(str(t), [])] or [dict(op='next_idle', p=o['p'], ws=[], acq=False)]
+        log = (alog or {}).get(str(t), [])
+        if o['take'] == 0 or not log:
+          # (a generator closed before its first next() runs no line of as_completed: an operation that does nothing)
+          ops.append(dict(op='next_idle', p=o['p'], ws=[], acq=False))
+        else:
+          ops.append(dict(op='as_completed', p=o['p'], tasks=[k != 'ok' for k in o['tasks']], ignore=bool(o['ignore']),
+                          take=o['take'], fixed=bool(case.get('ac_fixed', AC_FIXED)),
+                          script=[model_op(x) for x in log if x['op'] != 'submit']))
       else:
         ops.append(model_op(o))
     out.append(dict(kind=th['kind'], ops=ops))
@@ -584,7 +624,14 @@ def compare(obs, m):
   if obs['outcome'] in ('done', 'deadlock', 'cut'):
     # results of the operations finished so far (model: values of Owner operations only)
     for t, th in enumerate(case['threads']):
-      if th['kind'] != 'pool' or any(o['op'] == 'as_completed' for o in th['ops']):
+      if th['kind'] == 'pool' and any(o['op'] == 'as_completed' for o in th['ops']):
+        # round 11: how as_completed ended (model: the outcome its controller recorded when the finaliser ended)
+        want = [canon_ac_outcome(v) for v in obs['results'][t]]
+        got = [('never-started' if g == 'none' else g) for g in m['results'][t]]
+        if want != got[:len(want)] or (obs['outcome'] == 'done' and want != got):
+          return f'thread {t}: as_completed ended real {want} vs model {got}'
+        continue
+      if th['kind'] != 'pool':
         continue
       want = [(canon_outcome(v) if o['op'] in COMPOSITE_OPS + ('submit',) else v) for o, v in zip(th['ops'], obs['results'][t])]
       got = m['results'][t]
